@@ -52,7 +52,7 @@ def prescribed_table(sub):
     writer - computed here, not read back from the writer object."""
     import yaml
     path = os.path.join(os.path.dirname(odml.__file__), "resources", "section_subclasses.yaml")
-    with open(path) as fh:
+    with open(path, encoding="utf-8") as fh:
         table = dict(yaml.safe_load(fh))
     if sub in ("off", "off+custom"):
         return None
@@ -379,7 +379,7 @@ def body(case):
                 w = RDFWriter(docs, **kw)
                 w.write_file(path, fmt)
                 table = prescribed_table(sub)
-                with open(path) as fh:
+                with open(path, encoding="utf-8") as fh:
                     text = fh.read()
             else:
                 table = prescribed_table("on")
@@ -387,11 +387,11 @@ def body(case):
                     text = ODMLWriter("RDF").to_string(docs[0], rdf_format=fmt)
                 elif writer == "odmlwriter_file":
                     ODMLWriter("RDF").write_file(docs[0], path, rdf_format=fmt)
-                    with open(path) as fh:
+                    with open(path, encoding="utf-8") as fh:
                         text = fh.read()
                 else:
                     odml.save(docs[0], path, "RDF", rdf_format=fmt)
-                    with open(path) as fh:
+                    with open(path, encoding="utf-8") as fh:
                         text = fh.read()
         except Exception as exc:
             fails.append(failure("rdf.write_raised", "RDF export (%s, %s) raised %s: %s"
@@ -412,7 +412,7 @@ def body(case):
             reader = case["reader"]
             if reader.endswith("file"):
                 if not os.path.exists(path):
-                    with open(path, "w") as fh:
+                    with open(path, "w", encoding="utf-8") as fh:
                         fh.write(text)
                 if reader.startswith("rdfreader"):
                     back = RDFReader().from_file(path, fmt)
@@ -466,12 +466,14 @@ def nontrivial(case):
 
 def plan(tier):
     if tier == "quick":
-        return [{"name": "rdf%d" % i, "n": 120, "depth": 2} for i in range(16)]
-    return [{"name": "rdf%d" % i, "n": 4000, "depth": 3} for i in range(16)]
+        return [{"name": "rdf%d" % i, "n": 120, "depth": 2} for i in range(16)] + \
+            [{"name": "rdf_ascii_locale", "n": 80, "depth": 2, "env": "ascii_locale"}]
+    return [{"name": "rdf%d" % i, "n": 4000, "depth": 3} for i in range(16)] + \
+        [{"name": "rdf_ascii_locale%d" % i, "n": 1500, "depth": 3, "env": "ascii_locale"} for i in range(2)]
 
 
 def run(shard, seed, ctx):
-    hyp.drive(ctx, "rdf", cases(shard["depth"]), body, shard["n"], seed, shrink_budget=150)
+    hyp.drive(ctx, "rdf", hyp.in_env(cases(shard["depth"]), shard), body, shard["n"], seed, shrink_budget=150)
 
 
 def replay(kind, case):
